@@ -96,13 +96,13 @@ def body(c):
     cfg = c.path("Gen.cfg")
     with open(cfg, "w") as f:
         f.write("CONSTANT MaxAtoms = %d\nINIT Init\nNEXT Next\nINVARIANT Emit\n" % natoms)
-    g = vlib.run_tlc("gql/Gen_Sdl.tla", cfg, workers=8, timeout=1800, keep_lines=50, xmx="8g")
+    g = vlib.run_tlc("gql/Gen_Sdl.tla", cfg, workers=4, timeout=1800, keep_lines=50, xmx="8g")
     c.add_tlc("G string builder, <= %d atoms, all slots" % natoms, g)
     cfg2 = c.path("GenTs.cfg")
     universes = ["Chain", "Args", "ImplObject3"] if c.quick else ["Chain", "Args", "ImplObject6", "ImplInterface3", "Roots"]
     with open(cfg2, "w") as f:
         f.write("CONSTANT Universes = {%s}\nINIT Init\nNEXT Next\nINVARIANT Emit\n" % ", ".join('"%s"' % u for u in universes))
-    g2 = vlib.run_tlc("gql/Gen_SchemaCheck.tla", cfg2, workers=8, timeout=1800, keep_lines=50, xmx="8g", metadir=c.path("tlc-G2"))
+    g2 = vlib.run_tlc("gql/Gen_SchemaCheck.tla", cfg2, workers=4, timeout=1800, keep_lines=50, xmx="8g", metadir=c.path("tlc-G2"))
     c.add_tlc("G type systems of the C33 builder machine, universes " + ",".join(universes), g2)
     mt.join()
     if "e" in mres:
@@ -160,7 +160,7 @@ def body(c):
                      "parse_error": o["parse_error"], "facts": o["facts"], "static_dev": STATIC_DEV.get(name, "")})
     vlib.write_ndjson(c.path("trace_v.ndjson"), slim)
     v = vlib.run_tlc("gql/SdlTrace.tla", "gql/SdlTrace.cfg", env={"TRACE": c.path("trace_v.ndjson")},
-                     workers=8, timeout=3000, keep_lines=50, xmx="8g")
+                     workers=4, timeout=3000, keep_lines=50, xmx="8g")
     stage("V")
     c.notes.append({"stage_wall_s": stages})
     verdicts = {t[1]: [t[2], [], ""] for t in v.tagged("VERDICT")}
